@@ -78,6 +78,8 @@ func pkgName(modBase, dir string) string {
 func moduleCUE(m Mod, arr Arr) string {
 	var b strings.Builder
 	fmt.Fprintf(&b, "module: %q\nlanguage: version: \"v0.9.0\"\n", m.Path)
+	// fields that tidy has no business with and must carry over
+	b.WriteString(extraFields)
 	deps := append([]Dep{}, m.Deps...)
 	if arr.RevDeps {
 		for i, j := 0, len(deps)-1; i < j; i, j = i+1, j-1 {
@@ -97,6 +99,8 @@ func moduleCUE(m Mod, arr Arr) string {
 	}
 	return b.String()
 }
+
+const extraFields = "description: \"module of a generated universe\"\nsource: kind: \"self\"\ncustom: \"x.test/tool\": {k: 1}\n"
 
 // moduleFS renders a module as a file system.
 func moduleFS(m Mod, arr Arr) fstest.MapFS {
